@@ -14,6 +14,8 @@ pub enum Ctx {
     TzHolidays(String, String),
     /// `Context::from_coords`: (lat, lon) in 1e-4 degrees
     Coords(i32, i32),
+    /// no location, `approx_bound_interval_size(days)`
+    Bounded(u32),
     /// explicit zone plus coordinates (sun events computed for the place), no holidays, no lazy table
     TzCoords(String, i32, i32),
 }
@@ -82,6 +84,9 @@ fn gen_ctx(rng: &mut Rng, p: &Pools, coords_ok: bool) -> Ctx {
         // a small set of zones so that two contexts often differ in the coordinates only
         return Ctx::TzCoords(rng.pick(&["UTC", "Europe/Paris"]).to_string(), c.0, c.1);
     }
+    if rng.chance(1, 16) {
+        return Ctx::Bounded(*rng.pick(&[1, 2, 7, 30, 366]));
+    }
     match rng.below(if coords_ok { 10 } else { 8 }) {
         0 | 1 | 2 => Ctx::Default,
         3 | 4 => Ctx::Holidays(p.pick_country(rng)),
@@ -136,6 +141,8 @@ fn gen_op(rng: &mut Rng, p: &Pools, coords_ok: bool, n_prebuilt: u32) -> Op {
                         Ctx::TzCoords(z.clone(), co.0, co.1)
                     }
                     (Ctx::Holidays(_), 0 | 1) => Ctx::Holidays(p.pick_country(rng)),
+                    (Ctx::Default, 0) | (Ctx::Bounded(_), 0 | 1) => Ctx::Bounded(*rng.pick(&[1, 2, 7, 30, 366])),
+                    (Ctx::Bounded(_), _) => Ctx::Default,
                     (Ctx::Tz(_), 0) => Ctx::Tz(rng.pick(&p.zones).to_string()),
                     (Ctx::TzHolidays(z, _), 0 | 1) => Ctx::TzHolidays(z.clone(), p.pick_country(rng)),
                     _ => gen_ctx(rng, p, false),
